@@ -21,7 +21,7 @@ Definition byte_tagged (t : ty) : bool :=
 
 Lemma ru8_cons tag rest pos : ru8 (tag :: rest) pos = Ok (tag, rest, pos + 1).
 Proof.
-  unfold ru8, rbind, read_exact.
+  unfold ru8, rbind. rewrite read_exact_eq.
   destruct (N.leb_spec 1 (nlen (tag :: rest))) as [_|H];
     [|unfold nlen in H; cbn [length] in H; lia].
   unfold ntake, ndrop. change (N.to_nat 1) with 1%nat. cbn [firstn skipn le_val].
